@@ -9,6 +9,7 @@ CHECK = {
     "entries": [
         {"fn": P + "vC36_sameNode", "replay": "model-only"},
         {"fn": P + "vC36_twoLeaders", "replay": "model-only"},
+        {"fn": P + "vC36_waiterCancelled", "replay": "model-only"},
     ],
     "opts": {"rounds": 3, "unwind": 3, "unwind_mode": "assume", "feasibility": False, "substitute": SUB, "go_inline": True,
              "globals": {}},
